@@ -117,6 +117,15 @@ static void add_ctor_cases() {
     c.fn = [=]() { return guard([=]() { gsl_matrix_complex* m = gsl_matrix_complex_calloc(r, cc); struct F { gsl_matrix_complex* m; ~F() { gsl_matrix_complex_free(m); } } fr{m}; SU_vector v(m); use(v); }, none); };
     cases.push_back(c);
   }
+  // the same shapes as views into a larger block (row stride != number of columns; in particular stride == number of rows)
+  for (unsigned r = 1; r <= 7; r++) for (unsigned cc = 1; cc <= 7; cc++) if (r != cc || r == 1 || r >= 7) for (unsigned stride : {r, 8u}) {
+    if (stride < cc) continue;
+    Case c; c.sig = r != cc ? "SU_vector(matrix-view):non-square" : "SU_vector(matrix-view):unsupported-dimension"; c.desc = fmt("SU_vector(%ux%u view of a block with row stride %u)", r, cc, stride);
+    c.fn = [=]() { return guard([=]() { gsl_matrix_complex* m = gsl_matrix_complex_calloc(8, stride); struct F { gsl_matrix_complex* m; ~F() { gsl_matrix_complex_free(m); } } fr{m};
+      for (unsigned i = 0; i < 8; i++) for (unsigned j = 0; j < stride; j++) gsl_matrix_complex_set(m, i, j, gsl_complex_rect(i == j ? 1.0 : 0.0, 0));
+      gsl_matrix_complex_view vw = gsl_matrix_complex_submatrix(m, 0, 0, r, cc); SU_vector v(&vw.matrix); use(v); }, none); };
+    cases.push_back(c);
+  }
   for (unsigned len = 0; len <= 64; len++) {
     unsigned rt = (unsigned)std::lround(std::sqrt((double)len)); bool square = rt * rt == len;
     if (len == 0 || (square && rt >= 2 && rt <= 6)) continue;
